@@ -16,7 +16,8 @@ RULE = ("(1) exhaustive sweeps: every 8- and 16-bit integer type through each pu
         "(plus out-of-range neighbours) and all byte strings of length 0..2 parsed; VarInt/ZigZag all values < 2^14 (quick) / 2^21 (thorough) and all byte "
         "strings of length <= 2 (quick) / 3 (thorough); every Float16 bit pattern parsed and rebuilt; Flag all bytes; (2) boundary/random: widths to 128 "
         "bits around every power-of-two boundary, VarInt/ZigZag around 2^63, 2^64, 2^70, 2^100, doubles on both sides of every binary16/32 rounding and "
-        "overflow boundary, strings x encodings (empty, exactly filling, one too long, terminator aligned/unaligned), negative signed length/count "
+        "overflow boundary, strings x encodings (empty, exactly filling, one too long, terminator aligned/unaligned, field lengths that are not multiples of the "
+        "code unit), NullStripped with 1/2/3/4-byte pad units over every byte string of length <= 7 from a small alphabet, negative signed length/count "
         "fields, wrong types; (3) composite recipes from the typed grammar (core fragment) x generated + hostile values x canonical/mutated/random bytes. "
         "non-trivial = case on a boundary or rejected by the reference; distinct by (construct, case class)")
 ASSUMPTIONS = ["NaN: all NaNs form one class (payload/sign not compared)", "native-endian names follow sys.byteorder",
@@ -54,8 +55,14 @@ class Runner:
         if mb[0] == "gap":
             ctx.count("model_gap")
             return None
+        if mb[0] == "ok" and len(mb[1]) > (1 << 20):
+            ctx.count("resource_gap_encoding_over_1MiB")      # e.g. a mutated count of 2^28 padding bytes: size, not semantics
+            return None
         lb = lib_build(self.con(r), v, kw)
         case = {"dir": "build", "recipe": r, "kw": kw, "value": tag(v), "cls": cls}
+        if lb[0] != "ok" and lb[1] in ("MemoryError", "OverflowError"):
+            ctx.count("resource_gap_library_memory")
+            return None
         if mb[0] == "ok":
             if lb[0] != "ok":
                 ctx.violation("build-rejects-valid:%s" % top_kind(r), "reference builds %s, library raised %s" % (mb[1].hex(), lb[1:]), case)
